@@ -355,4 +355,251 @@ theorem doRSAencrypt_ok (block : Bytes) (n e : Nat) (hb : block.length = 255) (h
   refine ⟨beBytes (powMod (fromBE block) e n) 256, ?_, by simp⟩
   simp [doRSAencrypt, hb, h2]
 
+theorem bigBytes_len_of_le {p n k : Nat} (h : p ≤ n) (hn : n < 256 ^ k) : (bigBytes p).length ≤ k :=
+  bigBytes_length_le p k (by omega)
+
+theorem stage1_error {c : Cfg} (hs : ClientSane c) {r : Bytes} {a : Abort} (h : stage1 c r = .error a) :
+    ∃ k, a = .err k := by
+  unfold stage1 at h
+  simp only [bind, Except.bind, pure, Except.pure, throw, throwThe, MonadExceptOf.throw] at h
+  have hnonce : fromBE c.d.nonce < 256 ^ 16 := by have := fromBE_lt c.d.nonce; rwa [hs.nonce] at this
+  have hnn : fromBE c.d.newNonce < 256 ^ 32 := by have := fromBE_lt c.d.newNonce; rwa [hs.newNonce] at this
+  split at h
+  · rename_i e he; cases h; exact recvService_error he
+  · rename_i v hv
+    have hb : BigOK v := decodeUnknown_bigok _ _ _ _ _ _ (recvService_ok hv).1
+    split at h
+    · rename_i x hx
+      obtain ⟨hxn, hxs, hpq⟩ := asResPQ_bigok hb hx
+      split at h
+      · cases h; exact ⟨_, rfl⟩
+      · split at h
+        · cases h; exact ⟨_, rfl⟩
+        · split at h
+          · rename_i pqf hsp
+            obtain ⟨hp, hq⟩ := hs.split _ pqf.1 pqf.2 hsp
+            have hfb := fromBE_lt x.pq
+            have hpl : (bigBytes pqf.1).length < 2 ^ 24 := by
+              have := bigBytes_len_of_le hp hfb; omega
+            have hql : (bigBytes pqf.2).length < 2 ^ 24 := by
+              have := bigBytes_len_of_le hq hfb; omega
+            obtain ⟨m, hm⟩ := marshalCheck_ok (marshal_pqInner hs.reg x.pq (bigBytes pqf.1) (bigBytes pqf.2)
+              (fromBE c.d.nonce) x.serverNonce (fromBE c.d.newNonce) hpq hpl hql hnonce hxs hnn)
+            rw [hm] at h
+            simp only at h
+            obtain ⟨enc, henc, hel⟩ := doRSAencrypt_ok (copyAt (zeros 255) 0 (c.P.H m ++ m)) c.key.n c.key.e
+              (by rw [copyAt_length] <;> simp) hs.keyPos hs.keyFit
+            rw [henc] at h
+            simp only [liftPanic] at h
+            obtain ⟨rq, hrq⟩ := marshalSend_ok (marshal_reqDH hs.reg (fromBE c.d.nonce) x.serverNonce (bigBytes pqf.1)
+              (bigBytes pqf.2) (rsaFingerprint c.P.H c.key) enc hpl hql (by omega) hnonce hxs)
+            rw [hrq] at h
+            cases h
+          · cases h; exact ⟨_, rfl⟩
+    · cases h; exact ⟨_, rfl⟩
+
+/-- what a successful first stage hands to the second: a server_nonce that fits 16 bytes -/
+theorem stage1_serverNonce_lt {c : Cfg} {r : Bytes} {s : S1} (h : stage1 c r = .ok s) : s.serverNonce < 256 ^ 16 := by
+  obtain ⟨v, x, hd, hx, _, _, hsn⟩ := stage1_ok h
+  have hb : BigOK v := decodeUnknown_bigok _ _ _ _ _ _ hd
+  rw [hsn]; exact (asResPQ_bigok hb hx).2.1
+
+theorem encryptTemp_ok (H : Bytes → Bytes) (E : Bytes → Bytes → Bytes) (hH : ∀ x, (H x).length = 20)
+    (msg : Bytes) (n s : Nat) (rnd : Bytes) (hr : 15 ≤ rnd.length) :
+    ∃ ct, encryptTemp H E msg n s rnd = .ok ct := by
+  have hpad := tempPadLen_spec (20 + msg.length)
+  have hplen : (rnd.take (tempPadLen (20 + msg.length))).length = tempPadLen (20 + msg.length) := by
+    simp; omega
+  have hdl : (H msg ++ msg ++ rnd.take (tempPadLen (20 + msg.length))).length
+      = 20 + msg.length + tempPadLen (20 + msg.length) := by
+    rw [List.length_append, List.length_append, hH, hplen]
+  refine ⟨igeEncBytes (E (generateTempKeys H n s).1) (generateTempKeys H n s).2
+    (H msg ++ msg ++ rnd.take (tempPadLen (20 + msg.length))), ?_⟩
+  simp only [encryptTemp, encryptTempNoPad, hH]
+  rw [doEncrypt_spec _ _ _ _ (by rw [hdl]; omega) (by rw [hdl]; omega) (by simp)]
+
+theorem decryptDHAnswer_error {c : Cfg} {enc : Bytes} {nn sn : Nat} {a : Abort}
+    (h : decryptDHAnswer c enc nn sn = .error a) : ∃ k, a = .err k := by
+  unfold decryptDHAnswer at h
+  split at h
+  · cases h
+  · cases h; exact ⟨_, rfl⟩
+  · cases h; exact ⟨_, rfl⟩
+
+theorem stage2_error {c : Cfg} (hs : ClientSane c) {sn : Nat} (hsn : sn < 256 ^ 16) {r : Bytes} {a : Abort}
+    (h : stage2 c sn r = .error a) : ∃ k, a = .err k := by
+  unfold stage2 at h
+  simp only [bind, Except.bind, pure, Except.pure, throw, throwThe, MonadExceptOf.throw] at h
+  have hnonce : fromBE c.d.nonce < 256 ^ 16 := by have := fromBE_lt c.d.nonce; rwa [hs.nonce] at this
+  have hnn : fromBE c.d.newNonce < 256 ^ 32 := by have := fromBE_lt c.d.newNonce; rwa [hs.newNonce] at this
+  split at h
+  · rename_i e he; cases h; exact recvService_error he
+  · rename_i v hv
+    split at h
+    · cases h; exact ⟨_, rfl⟩
+    · split at h
+      · rename_i x hx
+        split at h
+        · cases h; exact ⟨_, rfl⟩
+        · split at h
+          · cases h; exact ⟨_, rfl⟩
+          · split at h
+            · rename_i e he; cases h; exact decryptDHAnswer_error he
+            · rename_i answer hans
+              split at h
+              · rename_i vi hvi
+                have hbi : BigOK vi := decodeUnknown_bigok _ _ _ _ _ _ hvi
+                split at h
+                · rename_i xi hxi
+                  have hdp := asInner_bigok hbi hxi
+                  split at h
+                  · cases h; exact ⟨_, rfl⟩
+                  · split at h
+                    · cases h; exact ⟨_, rfl⟩
+                    · split at h
+                      · cases h; exact ⟨_, rfl⟩
+                      · rename_i hP
+                        rw [bigIntBytes_ok _ _ hnn, bigIntBytes_ok _ _ hsn] at h
+                        simp only [liftPanic] at h
+                        have hPpos : 0 < fromBE xi.dhPrime := Nat.pos_of_ne_zero hP
+                        have hgb := powMod_lt (baseOfG xi.g (fromBE xi.dhPrime)) (fromBE c.d.b) (fromBE xi.dhPrime) hPpos
+                        have hPl := fromBE_lt xi.dhPrime
+                        have hgl : (bigBytes (powMod (baseOfG xi.g (fromBE xi.dhPrime)) (fromBE c.d.b) (fromBE xi.dhPrime))).length < 2 ^ 24 := by
+                          have := bigBytes_length_le _ xi.dhPrime.length (Nat.lt_trans hgb hPl); omega
+                        obtain ⟨m, hm⟩ := marshalCheck_ok (marshal_clientInner hs.reg (fromBE c.d.nonce) sn 0 _ hgl hnonce hsn)
+                        rw [hm] at h
+                        simp only at h
+                        obtain ⟨ct, hct⟩ := encryptTemp_ok c.P.H c.P.E hs.hlen m (fromBE c.d.newNonce) sn c.d.rnd hs.rnd
+                        rw [hct] at h
+                        simp only at h
+                        split at h
+                        · rename_i e he
+                          cases h
+                          exact marshalSend_error (marshal_setClientDH_no_panic hs.reg _ _ _ hnonce hsn) he
+                        · cases h
+                · cases h; exact ⟨_, rfl⟩
+              · cases h; exact ⟨_, rfl⟩
+              · rename_i s hpanic
+                have hp := decodeUnknown_no_panic c.R c.P.gunzip (fuelFor answer) [] answer (by intro h hh; simp at hh)
+                rw [hpanic] at hp; simp [Outcome.isPanic] at hp
+      · cases h; exact ⟨_, rfl⟩
+
+theorem stage3_error {c : Cfg} {sn : Nat} {nh r : Bytes} {a : Abort}
+    (h : stage3 c sn nh r = .error a) : ∃ k, a = .err k := by
+  unfold stage3 at h
+  simp only [bind, Except.bind, pure, Except.pure, throw, throwThe, MonadExceptOf.throw] at h
+  split at h
+  · rename_i e he; cases h; exact recvService_error he
+  · rename_i v hv
+    have hb : BigOK v := decodeUnknown_bigok _ _ _ _ _ _ (recvService_ok hv).1
+    split at h
+    · cases h; exact ⟨_, rfl⟩
+    · split at h
+      · rename_i x hx
+        split at h
+        · cases h; exact ⟨_, rfl⟩
+        · split at h
+          · cases h; exact ⟨_, rfl⟩
+          · rw [bigIntBytes_ok _ _ (asDHGenOk_bigok hb hx)] at h
+            simp only [liftPanic] at h
+            split at h
+            · cases h; exact ⟨_, rfl⟩
+            · cases h
+      · cases h; exact ⟨_, rfl⟩
+
+/-- nothing irrevocable has happened: not encrypted, `makeAuthKey` has not returned success, nothing
+stored, nothing sent encrypted, `encrypted` not switched on -/
+def Quiet (sa : HsState × List Action) : Prop :=
+  sa.1.encrypted = false ∧ sa.1.result ≠ some (.ok ()) ∧
+  ∀ a ∈ sa.2, a.isSave = false ∧ a.isSendEnc = false ∧ a ≠ .setEncrypted
+
+theorem allChecks_of_stages {c : Cfg} {r1 r2 r3 : Bytes} {s1 : S1} {s2 : S2} {u : Unit}
+    (h1 : stage1 c r1 = .ok s1) (h2 : stage2 c s1.serverNonce r2 = .ok s2)
+    (h3 : stage3 c s1.serverNonce s2.nonceHash1 r3 = .ok u) : AllChecks c r1 r2 r3 := by
+  obtain ⟨v1, x1, d1, a1, n1, f1, e1⟩ := stage1_ok h1
+  obtain ⟨v2, x2, ans, vi, xi, d2, a2, n2, sn2, dec, dvi, ai, ni, sni, hh⟩ := stage2_ok h2
+  obtain ⟨v3, x3, d3, a3, n3, sn3, hh3⟩ := stage3_ok h3
+  refine ⟨v1, x1, v2, x2, ans, vi, xi, v3, x3, d1, a1, d2, a2, d3, a3, ?_, dvi, ai, n1, n2, ?_, ni, ?_, n3, ?_, f1, ?_⟩
+  · rw [← e1]; exact dec
+  · rw [sn2, e1]
+  · rw [sni, e1]
+  · rw [sn3, e1]
+  · rw [hh3, hh]
+
+/-- a run on three replies that is not quiet passed all checks -/
+theorem run3_allChecks (c : Cfg) (r1 r2 r3 : Bytes) (h : ¬ Quiet (run3 c r1 r2 r3)) : AllChecks c r1 r2 r3 := by
+  unfold run3 at h
+  cases h0 : marshalSend c.R (vReqPQ (fromBE c.d.nonce)) with
+  | error a => exact absurd (by cases a <;> simp [h0, Quiet, Abort.toOutcome]) h
+  | ok req1 =>
+    simp only [h0] at h
+    cases h1 : stage1 c r1 with
+    | error a => exact absurd (by cases a <;> simp [h1, Quiet, Abort.toOutcome, Action.isSave, Action.isSendEnc]) h
+    | ok s1 =>
+      simp only [h1] at h
+      cases h2 : stage2 c s1.serverNonce r2 with
+      | error a => exact absurd (by cases a <;> simp [h2, Quiet, stAfter1, Abort.toOutcome, Action.isSave, Action.isSendEnc]) h
+      | ok s2 =>
+        simp only [h2] at h
+        cases h3 : stage3 c s1.serverNonce s2.nonceHash1 r3 with
+        | error a => exact absurd (by cases a <;> simp [h3, Quiet, stAfter2, Abort.toOutcome, Action.isSave, Action.isSendEnc]) h
+        | ok u => exact allChecks_of_stages h1 h2 h3
+
+/-- under `ClientSane`, a run on three replies ends with success or an error -/
+theorem run3_result (c : Cfg) (hs : ClientSane c) (r1 r2 r3 : Bytes) :
+    (run3 c r1 r2 r3).1.result = some (.ok ()) ∨ ∃ k, (run3 c r1 r2 r3).1.result = some (.err k) := by
+  have hnonce : fromBE c.d.nonce < 256 ^ 16 := by have := fromBE_lt c.d.nonce; rwa [hs.nonce] at this
+  obtain ⟨req1, h0⟩ := marshalSend_ok (marshal_reqPQ hs.reg _ hnonce)
+  unfold run3
+  simp only [h0]
+  cases h1 : stage1 c r1 with
+  | error a =>
+    obtain ⟨k, rfl⟩ := stage1_error hs h1
+    exact Or.inr ⟨k, rfl⟩
+  | ok s1 =>
+    simp only
+    cases h2 : stage2 c s1.serverNonce r2 with
+    | error a =>
+      obtain ⟨k, rfl⟩ := stage2_error hs (stage1_serverNonce_lt h1) h2
+      exact Or.inr ⟨k, rfl⟩
+    | ok s2 =>
+      simp only
+      cases h3 : stage3 c s1.serverNonce s2.nonceHash1 r3 with
+      | error a =>
+        obtain ⟨k, rfl⟩ := stage3_error h3
+        exact Or.inr ⟨k, rfl⟩
+      | ok u => exact Or.inl rfl
+
+theorem hsRun_short (c : Cfg) (replies : List Bytes) (h : replies.length < 3) : Quiet (hsRun c replies) := by
+  match replies, h with
+  | [], _ =>
+    unfold hsRun hsStart
+    cases marshalSend c.R (vReqPQ (fromBE c.d.nonce)) <;>
+      simp [hsFeed, Quiet, finish, sendAction, Action.isSave, Action.isSendEnc, Abort.toOutcome]
+    rename_i a; cases a <;> simp
+  | [r1], _ =>
+    unfold hsRun hsStart
+    cases marshalSend c.R (vReqPQ (fromBE c.d.nonce)) with
+    | error a =>
+      cases a <;> simp [hsFeed, hsStep, Quiet, finish, Abort.toOutcome]
+    | ok rq =>
+      simp only [hsFeed, hsStep, sendAction]
+      cases stage1 c r1 with
+      | error a => cases a <;> simp [Quiet, finish, Action.isSave, Action.isSendEnc, Abort.toOutcome]
+      | ok s1 => simp [Quiet, sendAction, Action.isSave, Action.isSendEnc]
+  | [r1, r2], _ =>
+    unfold hsRun hsStart
+    cases marshalSend c.R (vReqPQ (fromBE c.d.nonce)) with
+    | error a =>
+      cases a <;> simp [hsFeed, hsStep, Quiet, finish, Abort.toOutcome]
+    | ok rq =>
+      simp only [hsFeed, hsStep, sendAction]
+      cases stage1 c r1 with
+      | error a => cases a <;> simp [Quiet, finish, hsStep, Action.isSave, Action.isSendEnc, Abort.toOutcome]
+      | ok s1 =>
+        simp only [sendAction]
+        cases stage2 c s1.serverNonce r2 with
+        | error a => cases a <;> simp [Quiet, finish, Action.isSave, Action.isSendEnc, Abort.toOutcome]
+        | ok s2 => simp [Quiet, sendAction, Action.isSave, Action.isSendEnc]
+
 end Mtv.Handshake
